@@ -403,7 +403,7 @@ func vfGenItem(t *rapid.T, label string, allowExplicitCompressed bool) vfRawItem
 
 func vfGenRawResp(t *rapid.T, e2e bool) vfRawResp {
 	r := vfRawResp{}
-	r.Status = uint32(rapid.SampledFrom([]int{0, 200, 200, 201, 400, 404, 415, 429, 500, 503, 599}).Draw(t, "status"))
+	r.Status = uint32(rapid.SampledFrom([]int{0, 200, 200, 201, 299, 400, 404, 415, 429, 500, 503, 599, 600, 800, 999}).Draw(t, "status"))
 	r.Headers = vfGenHdrs(t, "hdr", vfHdrNamePool, 4)
 	r.Trailers = vfGenHdrs(t, "trl", vfTrailerNamePool, 3)
 	r.Body = rapid.SampledFrom([]string{"none", "unary", "stream", "stream"}).Draw(t, "body")
